@@ -13,6 +13,7 @@ Tokens (no blanks inside a token; `-` = absent / empty):
         → per segment `expSeq|-,expDecode|-,validated,seq|-,dur|-,next|-:errs`
   `vtl <S>…` with S = `t|-,d|-,r` → `t:d/t:d… errs`
   `vgentl live,audio,numberInMedia,pto,startNumber,segDuration,dashTs,frNum,frDen,need|- <t:d/…>` → `num,expSeq|-,expDecode,expDur,tol/…`
+  `vtldepth live,targetUs|-,tsbdUs,dashTs <t:d/…>` → `timelineShort` or `-`
   `vwin ts,sd,startNumber,pto,tsbdUs,nowUs,astUs,segDurUs` → `start,n` or `none`
   `vtol audio,ts,frNum,frDen,n` → tolerances of the first n template segments
   `vinit hasUrl,status,ranged,video <top,…|-> <moov,…|->` → `<load errors> <loaded 0|1> <validate errors if loaded> <errors when every request gets this response>`
@@ -156,6 +157,15 @@ def vgentl : List String → Option String
     | _ => none
   | _ => none
 
+def vtldepth : List String → Option String
+  | [cfg, ent] =>
+    match cfg.splitOn "," with
+    | [lv, tg, tsbd, ts] => do
+      let r := timelineDepthErrs (← pBool lv) (← optInt tg) (← parseInt tsbd) (← parseNat ts) (← parseEntries ent)
+      some (if r.isEmpty then "-" else "timelineShort")
+    | _ => none
+  | _ => none
+
 def vwin : List String → Option String
   | [cfg] =>
     match cfg.splitOn "," with
@@ -289,7 +299,8 @@ def vrefresh : List String → Option String
 
 /-- channels exported to `Main.lean` (collected by harness/gen_main.py) -/
 def channels : List (String × (List String → Option String)) :=
-  [("vseg", vseg), ("vrep", vrep), ("vtl", vtl), ("vgentl", vgentl), ("vwin", vwin), ("vtol", vtol),
+  [("vseg", vseg), ("vrep", vrep), ("vtl", vtl), ("vgentl", vgentl), ("vtldepth", vtldepth), ("vwin", vwin),
+   ("vtol", vtol),
    ("vinit", vinit), ("vmpd", vmpd), ("vrefresh", vrefresh)]
 
 end DashLive.Driver.Validator
